@@ -446,6 +446,47 @@ def run_case(ctx, case):
                     ctx.count('restarts')
                 for st in rng.sample(stored, min(len(stored), 3)):
                     check_object(ctx, srv, st, rng.choice(READ_VERSIONS), restarted)
+            # reads of a key wrapped with another key, batched with a plain read and a committing item
+            wk = store.register(srv, 'sym', 'alice', rng, value=bytes(range(16)), masks=[M.WRAP_KEY], state='active', names=['c05-kek'])
+            if wk is not None:
+                for wi in range(3):
+                    val_ = rand_value(rng)[:32].ljust(16, b'k')
+                    val_ = val_[:len(val_) // 8 * 8]
+                    sec_ = secret_sym(val_, E.CryptographicAlgorithm.AES, len(val_) * 8)
+                    rq_ = rig.encode_request(rig.build_request((1, 2), [op_register('sym', sec_, sym_attrs(
+                        E.CryptographicAlgorithm.AES, len(val_) * 8, [M.ENCRYPT], names=['c05-w%d-%06x' % (wi, rng.getrandbits(24))]))]), (1, 2))
+                    rr_ = srv.send_bytes(rq_, ('alice', None))
+                    if rr_.error is None and rr_.ok():
+                        tree_ = None
+                        for _, it in T.walk(T.decode(rq_, strict=False)):
+                            if it[0] == OBJ_TAG['sym'] and it[1] == T.STRUCTURE:
+                                tree_ = it
+                        stored.append(Stored(rr_.uid(), 'sym', tree_, expected_for(
+                            'sym', {'alg': E.CryptographicAlgorithm.AES, 'length': len(val_) * 8},
+                            supplied_map(sym_attrs(None, None, [M.ENCRYPT], names=['x']), (1, 2)), clock.now, (1, 2), None),
+                            {'vclass': 'len%d' % len(val_), 'alg': E.CryptographicAlgorithm.AES, 'length': len(val_) * 8}, 'alice', (1, 2), clock.now))
+                        stored[-1].expected.pop('Name', None)
+                        stored[-1].expected['Name'] = 'any'
+                for st in [s_ for s_ in stored if s_.kind == 'sym' and s_.owner == 'alice' and s_.obj_tree is not None][-6:]:
+                    vlen = 0
+                    for _, it in T.walk(st.obj_tree):
+                        if it[0] == 0x420043:
+                            vlen = len(it[2])
+                    if vlen % 8 or vlen < 16:
+                        continue
+                    batch = [op_get(st.uid, wrap=wrap_spec(wk.uid)), op_get(st.uid),
+                             op_register('opaque', secret_opaque(b'c05-commit'), common_attrs(names=['c05-commit-%s' % st.uid]))]
+                    try:
+                        rb_ = srv.send(batch, ('alice', None), (1, 2), error_option=E.BatchErrorContinuationOption.CONTINUE)
+                    except Exception:
+                        continue
+                    ctx.ev()
+                    ctx.count('wrapped_read_batches')
+                    if rb_.error is None and len(rb_.items) == 3 and rb_.ok(1):
+                        got = T.kid(rb_.payload(1), OBJ_TAG['sym'])
+                        if got != st.obj_tree:
+                            ctx.violation('sym|get|after-wrapped-get-in-batch', 'a plain Get following a wrapped Get of the same key in one '
+                                          'batch returns %s' % first_diff(st.obj_tree, got), {'uid': st.uid})
             # final sweep after a restart, every object under one version each
             srv.restart()
             ctx.count('restarts')
